@@ -540,6 +540,25 @@ class FluidPropertyPolynominal(FluidProperty):
         """
         return self.prop_int_getter(upper_limit_arg) - self.prop_int_getter(lower_limit_arg)
 
+    def to_dict(self):
+        # np.poly1d objects are not JSON serializable (they would be stored as their repr string):
+        # store the coefficients and rebuild both polynomials on load
+        d = super(FluidPropertyPolynominal, self).to_dict()
+        d.pop("prop_getter", None)
+        d.pop("prop_int_getter", None)
+        d["coeffs"] = np.asarray(self.prop_getter.coeffs)
+        return d
+
+    @classmethod
+    def from_dict(cls, d):
+        obj = JSONSerializableClass.__new__(cls)
+        d2 = {k: v for k, v in d.items() if k != "coeffs"}
+        if "coeffs" in d:
+            d2["prop_getter"] = np.poly1d(np.asarray(d["coeffs"], dtype=float))
+            d2["prop_int_getter"] = np.polyint(d2["prop_getter"])
+        obj.__dict__.update(d2)
+        return obj
+
     @classmethod
     def from_path(cls, path, polynominal_degree):
         """
